@@ -150,6 +150,8 @@ def nontrivial(case, ans):
 
 def signature(case, ans):
     f = case.split("\t")
+    if f[0] not in ("conv", "sched"):
+        return f[0] + ":" + ans[:24]
     kinds = sorted({e.split(":", 1)[0] for e in ans.split("\t")[0].split(";") if e and not e.startswith("W:")})
     cfg = dict(kv.split("=") for kv in f[1].split(","))
     return "lmtp=%s tls=%s ev=%s" % (cfg.get("lmtp"), cfg.get("tls"), "".join(k[0] for k in kinds))
